@@ -55,7 +55,7 @@ def run(ctx):
     dcases = []
     for ti, t in enumerate(camp.types):
         maxb = codec.dsdl.max_bits_body(t) // 8
-        for data, why in codec.byte_strings(rng, valid.get(ti, [])[:3], maxb, ctx.pick(4, 10), not ctx.quick):
+        for data, why in codec.byte_strings(rng, valid.get(ti, [])[:3], maxb, ctx.pick(4, 10), not ctx.quick, evolve=lambda enc, t=t: codec.dsdl.evolve(t, enc, rng, limit=3)):
             if why in ("bitflip", "byteset", "extended") and rng.random() < 0.5 and ctx.quick:
                 continue
             dcases.append({"ti": ti, "data": data, "why": why, "case": camp.new_case(), "null": why == "null", "priors": (0, 1, 2), "per_target": True,
